@@ -34,6 +34,7 @@ structure State where
   clusterUp : Bool := false
   world : Repl.World := Repl.World.init 0
   track : Option AReplSim.Track := none
+  seqSubs : List (Key × Option Key × Bool) := []   -- sequence-update subscribers: prefix, last observed, open
 
 def State.init : State := {}
 
@@ -254,8 +255,41 @@ def stepDb (st : State) (toks : List String) : State × String :=
       -- in a cluster script the offsets are implicit (one entry per write, in order)
       let off := if st.clusterUp then st.clusterOff else off
       let (db', r) := Db.processWrite st.db req off ts
-      ({ st with db := db', clusterOff := st.clusterOff + 1 }, showWriteResp r)
+      -- sequence-update subscribers are told the key every sequence put generates (fact: only when it
+      -- succeeds; before the repair of D-54 a rejected sequence put announced the empty key)
+      let notes : List (Key × Key) := match r with
+        | .ok resp => (req.puts.zip resp.puts).filterMap fun (p, pr) =>
+            if p.deltas.isEmpty then none
+            else match pr.status, pr.key with
+              | .ok, some k => some (p.key, k)
+              | _, _ => if Facts.sequenceUpdateOnlyOnSuccess then none else some (p.key, [])
+        | .error _ => []
+      let subs := notes.foldl (fun subs n => subs.map fun s => if s.2.2 && s.1 == n.1 then (s.1, some n.2, true) else s) st.seqSubs
+      ({ st with db := db', clusterOff := st.clusterOff + 1, seqSubs := subs }, showWriteResp r)
     | _, _, _ => (st, "bad-op")
+  | ["sq.sub", pfx] =>
+    match Hex.decode pfx with
+    | some pfx =>
+      -- `GetSequenceUpdates`: the greatest key in [prefix-0, prefix-MaxInt64) is the first value
+      let lo := pfx ++ [Db.dash] ++ Db.fmt020d 0
+      let hi := pfx ++ [Db.dash] ++ Db.fmt020d 9223372036854775807
+      let init := ((SKV.range lo hi st.db.store).getLast?).map (·.1)
+      ({ st with seqSubs := st.seqSubs ++ [(pfx, init, true)] }, "sub=" ++ toString st.seqSubs.length)
+    | none => (st, "bad-op")
+  | ["sq.close", n] =>
+    match n.toNat? with
+    | some n =>
+      (match st.seqSubs[n]? with
+       | some (p, l, true) => ({ st with seqSubs := st.seqSubs.set n (p, l, false) }, "ok")
+       | _ => (st, "closed"))
+    | none => (st, "bad-op")
+  | ["sq.last", n] =>
+    match n.toNat? with
+    | some n =>
+      (match st.seqSubs[n]? with
+       | some (_, l, true) => (st, "last=" ++ (match l with | some k => Hex.encode k | none => "none"))
+       | _ => (st, "closed"))
+    | none => (st, "bad-op")
   | ["db.dump"] => (st, showStore st.db.store)
   | ["db.tracker"] => (st, toString st.db.tracker)
   | ["db.commit"] => (st, DbProto.showOptKey (Db.readAsciiLong st.db Db.commitOffsetKey))
@@ -875,7 +909,7 @@ def step (st : State) (line : String) : State × String :=
     else if t.startsWith "kv." then stepKv st toks
     else if t.startsWith "wal." then stepWal st toks
     else if t.startsWith "cx." || t.startsWith "cw." then stepCodec st toks
-    else if t.startsWith "db." || t.startsWith "idx." then stepDb st toks
+    else if t.startsWith "db." || t.startsWith "idx." || t.startsWith "sq." then stepDb st toks
     else if t.startsWith "sh." || t.startsWith "cs." || t.startsWith "cl." then stepShard st toks
     else if t.startsWith "sel." then stepSelect st toks
     else if t.startsWith "p." then stepReplTracked st toks
